@@ -2,3 +2,4 @@
 import TransportVerif.Props.C04
 import TransportVerif.Props.C05
 import TransportVerif.Props.C16
+import TransportVerif.Props.C20
